@@ -31,6 +31,7 @@ RULE = ('Reference texts of 0-8 lines built from templates (fixed words + '
         'option excuses a pair, or exactly one unexcused pair; distinct by '
         'case hash.')
 RULE += ' ' + "Also: remove-substrings with edge white space ('# ', ' #', '--\\t') with and without stripping; ignore-patterns that are bare top-level alternations; preprocessors whose result is empty on one or both sides; histories on one comparison object (main options, 1-2 other ignore-pattern lists, main options again, every call judged); in lists of files the main actual file listed a second time against a byte copy of itself."
+RULE += ' ' + "Round 7: a sub-check on file entry points appends one more line to both files that differs in a single byte invalid in the files' encoding (caf\\xe9 / caf\\xe8): that must never pass; pattern-matched holes are sometimes filled with decimal digits of other scripts."
 ASSUMPTIONS = ['presence/absence of the final newline and one trailing blank '
                'line are not differences (deliberate in the code, statement '
                'silent)']
